@@ -147,17 +147,87 @@ def cases(tier: str):
                     yield dict(fam="B3", sig=sig, ret=ret,
                                prog={"name": "main", "params": [["x", NODEFAULT]], "body": [sub("top", [margs2[0]], "tt"), call("inc", [Vv("tt", 0)], "u0")],
                                      "ret": ["tuple", [Vv("u0"), Vv("tt", 1)]], "subs": [top]})
+    yield dict(fam="reconf")
+    yield from repeated_cases()
     # C. the same inner DAG twice in one outer DAG; the same function inside and outside
     for sig in SIGS:
         for ret in ("single", "tuple_in", "dict"):
             inner = inner_prog("inner", sig, ret)
             p1 = Vv("r1") if ret == "single" else (Vv("r1", 0) if ret == "tuple_in" else Vv("r1", "q"))
             p2 = Vv("r2") if ret == "single" else (Vv("r2", 0) if ret == "tuple_in" else Vv("r2", "q"))
-            for a1, a2 in itertools.product(call_forms(sig)[:3], [[P("x")], [p1], [p1, C(8)] if sig != "a" else [C(2)]]):
+            for a1, a2 in itertools.product(call_forms(sig)[:3], [[P("x")], [p1], [p1, C(8)] if sig != "a" else [C(2)], [P("x"), p1] if sig != "a" else [p1]]):
                 a1 = [P("x") if a[0] == "v" else a for a in a1]
                 body = [sub("inner", a1, "r1"), sub("inner", a2, "r2"), call("add", [p1, p2], "u0"), call("inc", [P("x")], "u1")]
                 yield dict(fam="C", sig=sig, ret=ret,
                            prog={"name": "main", "params": [["x", NODEFAULT]], "body": body, "ret": ["tuple", [Vv("u0"), Vv("u1"), p2]], "subs": [inner]})
+
+
+def repeated_cases():
+    """the same inner DAG called 3-4 times in one outer DAG (module-level and locally defined: dotted qualified name),
+    later calls overriding the default with a constant and with another call's result"""
+    for sig in ("ab5", "a1b5"):
+        for ret in ("single", "tuple_in", "dict"):
+            inner = inner_prog("inner", sig, ret)
+
+            def pj(v):
+                return Vv(v) if ret == "single" else (Vv(v, 0) if ret == "tuple_in" else Vv(v, "q"))
+
+            body = [sub("inner", [P("x")], "r1"), sub("inner", [pj("r1"), C(8)], "r2"), sub("inner", [P("x"), pj("r2")], "r3"),
+                    sub("inner", [pj("r3"), pj("r1")], "r4"), call("add", [pj("r3"), pj("r4")], "u0")]
+            for local in (False, True):
+                yield dict(fam="R", sig=sig, ret=ret, use="local" if local else "module", local_subs=local,
+                           prog={"name": "main", "params": [["x", NODEFAULT]], "body": body,
+                                 "ret": ["tuple", [Vv("u0"), pj("r2"), pj("r1")]], "subs": [inner]})
+
+
+RECONF_SRC = '''
+from tawazi import xn, dag, Resource
+import twzmc.harness as H
+@xn
+def a(*args, **k):
+    return H.node_body("a", args, k)
+@xn
+def b(*args, **k):
+    return H.node_body("b", args, k)
+@dag
+def inner(x):
+    return a(x), b(x)
+@dag
+def outer1(x):
+    return inner(x)
+inner.config_from_dict({"nodes": {"b": {"priority": 10, "is_sequential": True}}})
+@dag
+def outer2(x):
+    return inner(x)
+@dag
+def twin_inner(x):
+    return a(x), b(x)
+twin_inner.config_from_dict({"nodes": {"b": {"priority": 10, "is_sequential": True}}})
+'''
+
+
+def reconf_case(acc, c):
+    """inline inner; reconfigure inner; inline it again: the second outer DAG carries the NEW attributes (as hand-inlining would)"""
+    from ..build import exec_source
+    acc.cases += 1
+    ns = exec_source(RECONF_SRC)
+    o1, o2 = ns["outer1"], ns["outer2"]
+    acc.evaluations += 1
+    nb = o2.get_node_by_id("inner.b")
+    if (nb.priority, nb.is_sequential) != (10, True):
+        acc.violation(V("stale_inner_attributes", f"outer DAG built after inner.config_from_dict: inner.b has priority={nb.priority}, is_sequential={nb.is_sequential} (expected 10, True)"),
+                      c, (), None, RECONF_SRC)
+    ob = o1.get_node_by_id("inner.b")
+    if (ob.priority, ob.is_sequential) != (0, False):
+        acc.violation(V("earlier_outer_changed", f"the outer DAG built BEFORE the reconfiguration changed: inner.b priority={ob.priority}"), c, (), None, RECONF_SRC)
+    res = H.run_controlled(lambda: o2("v"))
+    acc.evaluations += 1
+    order = [e[1] for e in res.trace if e[0] == "enter"]
+    if res.outcome != "return" or order != ["inner.b", "inner.a"]:
+        acc.violation(V("stale_inner_order", f"max_concurrency=1 entry order of the second outer DAG is {order}, expected ['inner.b', 'inner.a'] ({res.outcome} {res.exc!r})"),
+                      c, (), res.trace, RECONF_SRC)
+    acc.mark_nontrivial("reconf_between_inlinings")
+    acc.mark_nontrivial("reconf_between_inlinings_order")
 
 
 def distinct_ids_ok(d) -> bool:
@@ -166,10 +236,12 @@ def distinct_ids_ok(d) -> bool:
 
 
 def run_one(acc, c):
+    if c.get("fam") == "reconf":
+        return reconf_case(acc, c)
     prog = c["prog"]
     inputs = [(0,), (3,), (-2,)]
-    case = {"prog": prog, "fam": c["fam"]}
-    run_program(acc, case, prog, inputs, ["mc1", "mc3"], (False, True), explore_all=False)
+    case = {"prog": prog, "fam": c["fam"], "local_subs": c.get("local_subs", False)}
+    run_program(acc, case, prog, inputs, ["mc1", "mc3"], (False, True), explore_all=False, local_subs=c.get("local_subs", False))
     acc.mark_nontrivial((c["fam"], c.get("sig"), c.get("ret"), c.get("use"), repr(prog["body"][2]["args"]) if len(prog["body"]) > 2 and "args" in prog["body"][2] else ""))
     if acc.cases <= 2:
         acc.sample({"source": ir.source(prog), "reference": [repr(ir.ref_eval(prog, i)[:2]) for i in inputs]})
@@ -185,10 +257,13 @@ def replay(v):
     c = v["case"]
     a = Acc(ID, 0, 1, 600)
     prog = c["prog"]
-    if "config" not in c:
-        run_program(a, c, prog, [(0,), (3,), (-2,)], ["mc1"], (False,))
+    if c.get("fam") == "reconf":
+        reconf_case(a, c)
         return a.violations, None
-    d, ns, src = build(prog, c["config"], c["is_async"])
+    if "config" not in c:
+        run_program(a, c, prog, [(0,), (3,), (-2,)], ["mc1"], (False,), local_subs=c.get("local_subs", False))
+        return a.violations, None
+    d, ns, src = build(prog, c["config"], c["is_async"], c.get("local_subs", False))
     args = tuple(c["args"])
     if c["is_async"]:
         async def op():
